@@ -721,10 +721,12 @@ fn c08_invariant_with(keys: &[Vec<u8>]) -> impl Fn(&Ctx, &mut World, &ExpState) 
 
 // ---- C08, second world: contract addresses that are prefixes of each other ("c", "cc", "ccc")
 
+/// Accepts every string as an address and NORMALISES it by trimming blanks (an Api may accept
+/// several spellings of one address; what it returns is the address).
 struct PermissiveApi;
 impl cosmwasm_std::Api for PermissiveApi {
     fn addr_validate(&self, human: &str) -> cosmwasm_std::StdResult<Addr> {
-        Ok(Addr::unchecked(human))
+        Ok(Addr::unchecked(human.trim()))
     }
     fn addr_canonicalize(&self, human: &str) -> cosmwasm_std::StdResult<cosmwasm_std::CanonicalAddr> {
         Ok(human.as_bytes().to_vec().into())
@@ -899,6 +901,12 @@ fn c08_prefix_world(ctx: &Ctx, depth: usize) -> (u64, u64) {
                 for k in &keys {
                     let raw = app.wrap().query_wasm_raw(cn.to_string(), k.to_vec()).ok().flatten().filter(|v| !v.is_empty());
                     if raw != model[ci].get(*k).cloned() {
+                        raw_ok = false;
+                    }
+                    // the same contract named by another spelling the Api accepts (blanks around it):
+                    // the Api says which address that is, and the query reads that address's store
+                    let raw_up = app.wrap().query_wasm_raw(format!(" {} ", cn), k.to_vec()).ok().flatten().filter(|v| !v.is_empty());
+                    if raw_up != model[ci].get(*k).cloned() {
                         raw_ok = false;
                     }
                 }
